@@ -391,7 +391,85 @@ def extract_ids(defs, consts):
     consts["xmlNs"] = xml_ns
 
 
-EXTRACTORS = [extract_entity, extract_html_escapes, extract_ids]
+
+
+def lean_strs(xs):
+    return "[" + ", ".join(lean_str(x) for x in xs) + "]"
+
+
+def extract_xml_render(defs, consts):
+    """String literals of XmlSerializer::render_output / serialize_pretty (output/xml_serializer.rs)
+    and of the declaration / doctype writers (output/xml.rs).  A `format!` literal becomes the
+    list of its pieces between `{}` placeholders (model: `fmt pieces args`)."""
+    src = strip_comments(read("src/output/xml_serializer.rs"))
+    body = fn_body(src, "render_output", "xml render literals")
+    lits = []
+    for m in re.finditer(r'format!\(\s*"((?:\\.|[^"\\])*)"|"((?:\\.|[^"\\])*)"\s*\.to_string\(\)', body):
+        if m.group(1) is not None:
+            lits.append(("fmt", unescape(m.group(1))))
+        else:
+            lits.append(("lit", unescape(m.group(2))))
+    names = [("fmtStartTagOpen", "fmt", 1), ("litEmptyTagClose", "lit", 0), ("litTagClose", "lit", 0),
+             ("fmtEndTag", "fmt", 1), ("litEmptyEndTag", "lit", 0), ("litXmlPrefix", "lit", 0),
+             ("fmtXmlnsDefault", "fmt", 1), ("fmtXmlnsPrefix", "fmt", 2), ("fmtAttribute", "fmt", 2),
+             ("fmtComment", "fmt", 1), ("fmtPiData", "fmt", 2), ("fmtPi", "fmt", 1)]
+    if len(lits) != len(names):
+        raise ExtractError(f"xml render literals: expected {len(names)} format!/to_string literals in render_output, found {len(lits)}: {lits}")
+    for (name, kind, holes), (k, text) in zip(names, lits):
+        if k != kind or (kind == "fmt" and text.count("{}") != holes) or ("{" in text.replace("{}", "")):
+            raise ExtractError(f"xml render literals: {name}: unexpected literal {text!r}")
+        if kind == "fmt":
+            defs.append(f"def {name} : List (List Char) := {lean_strs(text.split('{}'))}\n")
+        else:
+            defs.append(f"def {name} : List Char := {lean_str(text)}\n")
+        consts[name] = text
+    body = fn_body(src, "serialize_pretty", "indentation width")
+    m = re.search(r'"((?:\\.|[^"\\])*)"\s*\.repeat\(\s*indentation\s*\*\s*(\d+)\s*\)', body)
+    nl = re.findall(r'write_all\(\s*b"((?:\\.|[^"\\])*)"\s*\)', body)
+    if not m or len(nl) != 1:
+        raise ExtractError("serialize_pretty: expected `\" \".repeat(indentation * N)` and one `write_all(b\"…\")`")
+    defs.append(f"def indentUnit : List Char := {lean_str(unescape(m.group(1)))}\n")
+    defs.append(f"def indentWidth : Nat := {int(m.group(2))}\n")
+    defs.append(f"def prettyNewline : List Char := {lean_str(unescape(nl[0]))}\n")
+    consts["indent"] = [unescape(m.group(1)), int(m.group(2)), unescape(nl[0])]
+    body = fn_body(src, "serialize_node", "token space")
+    sp = re.findall(r'write_all\(\s*b"((?:\\.|[^"\\])*)"\s*\)', body)
+    if len(sp) != 1:
+        raise ExtractError("serialize_node: expected one `write_all(b\"…\")` literal (the token space)")
+    defs.append(f"def tokenSpace : List Char := {lean_str(unescape(sp[0]))}\n")
+    consts["tokenSpace"] = unescape(sp[0])
+    # output/pretty.rs element_space: the xml:space keywords
+    psrc = strip_comments(read("src/output/pretty.rs"))
+    body = fn_body(psrc, "element_space", "spaceKeywords")
+    kw = dict((v, unescape(k)) for k, v in re.findall(r'Some\(\s*"((?:\\.|[^"\\])*)"\s*\)\s*=>\s*Space::(\w+)', body))
+    if set(kw) != {"Preserve", "Default"} or "xml_space_name" not in body:
+        raise ExtractError(f"element_space: expected arms Some(\"…\") => Space::Preserve / Space::Default on xml_space_name, found {kw}")
+    defs.append(f"def spacePreserve : List Char := {lean_str(kw['Preserve'])}\n")
+    defs.append(f"def spaceDefault : List Char := {lean_str(kw['Default'])}\n")
+    consts["spaceKeywords"] = [kw["Preserve"], kw["Default"]]
+    # output/xml.rs: the two `serialize` writers, told apart by their first literal
+    xsrc = strip_comments(read("src/output/xml.rs"))
+    bodies = []
+    for m in re.finditer(r"\bfn\s+serialize\b", xsrc):
+        bodies.append(fn_body(xsrc[m.start():], "serialize", "xml.rs writers"))
+    if len(bodies) != 2:
+        raise ExtractError(f"output/xml.rs: expected 2 `fn serialize` (Declaration, DocType), found {len(bodies)}")
+    wl = [[unescape(x) for x in re.findall(r'b"((?:\\.|[^"\\])*)"', b)] for b in bodies]
+    dnames = ["declOpen", "declEncodingOpen", "declEncodingClose", "declStandaloneOpen", "declYes", "declNo",
+              "declStandaloneClose", "declClose"]
+    tnames = ["doctypeOpen", "doctypePublicOpen", "doctypePublicSep", "doctypePublicClose", "doctypeSystemOpen",
+              "doctypeSystemClose", "doctypeClose"]
+    if len(wl[0]) != len(dnames) or not wl[0][0].startswith("<?xml"):
+        raise ExtractError(f"Declaration::serialize: unexpected literals {wl[0]}")
+    if len(wl[1]) != len(tnames) or not wl[1][0].startswith("<!DOCTYPE"):
+        raise ExtractError(f"DocType::serialize: unexpected literals {wl[1]}")
+    for n, v in list(zip(dnames, wl[0])) + list(zip(tnames, wl[1])):
+        defs.append(f"def {n} : List Char := {lean_str(v)}\n")
+    consts["xmlDeclaration"] = wl[0]
+    consts["doctype"] = wl[1]
+
+
+EXTRACTORS = [extract_entity, extract_html_escapes, extract_ids, extract_xml_render]
 
 
 def main():
